@@ -238,6 +238,24 @@ struct ParserWorld : World {
 				if (single) break;
 			}
 		}
+		// the same parser context used for two parses in a row: a parse that failed (input ended early) leaves nothing behind that the next
+		// parse on that context trips over - it behaves as on a fresh context
+		if (!only_kind && !text.empty()) {
+			size_t cut = text.size() / 2;
+			Reader rd; parser_context ctx; ctx.name.sect = (uint16_t) sect; ctx.name.opt = (uint16_t) opt; ctx.src.getc = rd_getc; ctx.src.arg = &rd;
+			Block fb(fmt.size() + 1, 0); memcpy(fb.p, fmt.c_str(), fmt.size() + 1);
+			int r1, r2;
+			{ node root; rd = Reader(); rd.p = text.data(); rd.n = text.size(); rd.eof_at = cut; rd.err_at = (size_t) -1; rd.cap = cut + 16;
+			  { Sut s; r1 = mpt_parse_node(&root, &ctx, (const char *) fb.p); } { Sut s; mpt_node_clear(&root); } }
+			const Bytes &second = pre.empty() ? text : pre;
+			{ node root; rd = Reader(); rd.p = second.data(); rd.n = second.size(); rd.eof_at = (size_t) -1; rd.err_at = (size_t) -1; rd.cap = second.size() + 16;
+			  { Sut s; r2 = mpt_parse_node(&root, &ctx, (const char *) fb.p); } { Sut s; mpt_node_clear(&root); } }
+			int fresh; { node root; Outcome o = parse_once(root, second, fmt, sect, opt, (size_t) -1, (size_t) -1, 0); fresh = o.rc; { Sut s; mpt_node_clear(&root); } }
+			log.ev("REUSE context: first parse cut at %zu -> %d, second parse -> %d (fresh context: %d)", cut, r1, r2, fresh);
+			if ((r2 < 0) != (fresh < 0)) fail("context-state", "a parse on a context that an earlier, cut-off parse had used ends with %d, on a fresh context with %d", r2, fresh);
+			if (ledger_live()) fail("leak", "two parses on one context left %zu block(s) allocated: %s", ledger_live(), ledger_describe().c_str());
+			st.hit("probe:context_reused");
+		}
 		(void) base_rc;
 	}
 };
